@@ -28,6 +28,7 @@ EXPLANATION = (
     "(every value range maps to the code/format whose field can hold it); (f) checksum — in hash builds the "
     "trailer is the low 32 bits (little-endian) of a hash that is re-seeded per frame and fed every block exactly as "
     "read and as encoded, written after the last block (the reference decoder verifies it). "
+    "(g) every CompressState field written on the compress_block path is re-established when the block is emitted raw / RLE. "
     "Not decided: round-trip equality for all inputs; acceptance by the reference decoder.")
 ASSUMPTIONS = ["the decoder side order is C01's (RFC) order", "Vec::drain(..) empties the vector once the iterator is consumed"]
 
@@ -38,6 +39,15 @@ MGD = "ruzstd::encoding::match_generator::MatchGeneratorDriver"
 ENC = c14.ENC
 FAST = "ruzstd::encoding::levels::fastest::compress_fastest"
 SPEC = c14.SPEC
+
+
+# round trip needs the built-in match finder to report true in-window matches (C17) and both entropy stages to agree
+# between writer and reader (C12, C13); reported here as C02.matcher / C02.fse / C02.huffman
+INCLUDES = [
+    ("c17", "C02.matcher", None, 20),
+    ("c12", "C02.fse", None, 20),
+    ("c13", "C02.huffman", None, 30),
+]
 
 
 def run(ctx):
@@ -377,7 +387,8 @@ def run(ctx):
     ctx.only = lambda rule, key: (rule, key) in WRITER
     ctx.rename = lambda rule: "C02.wire." + rule.split(".", 1)[1] if rule.startswith("C14.") else rule
     try:
-        c14.run(ctx)
+        with ctx.entering("C14"):
+            c14.run(ctx)
     finally:
         ctx.only = None
         ctx.rename = None
@@ -396,7 +407,8 @@ def run(ctx):
         ctx.only = lambda rule, key: (rule, key) in {("C08.dom.reseed", "reseed"), ("C08.pair.hash-input", "hash_input"), ("C08.agree.trunc-endian", "trunc")}
         ctx.rename = lambda rule: "C02.checksum." + rule.split(".", 1)[1] if rule.startswith("C08.") else rule
         try:
-            c08.run(ctx)
+            with ctx.entering("C08"):
+                c08.run(ctx)
         finally:
             ctx.only = None
             ctx.rename = None
